@@ -8,7 +8,7 @@ ROOT = os.path.dirname(os.path.dirname(os.path.abspath(__file__)))
 CHECKS = {
  "C20": ("exploration",
    "real-time scenario enumeration on a coarse grid, many connections concurrently, tolerance-zone oracle with a driver-slip guard",
-   "Keep-alive source (client value -> k + k/2, handshake override, v3 disabled) x pattern (dead peer after 0..2 packets at two phases; live peer for three periods, whole or fragmented packets; partial frame stalled / trickling below the frame read rate / three fast-enough frames in a row; half a CONNECT or a trickling CONNECT against the connect timeout; idle client with keep-alive, with a full send window, after a stream that owed payload at a tick; live peer while a handler is busy; dead peer after the publish service was not ready for a while), "
+   "Keep-alive source (client value -> k + k/2, handshake override, v3 disabled) x pattern (dead peer after 0..2 packets at two phases; live peer for three periods, whole or fragmented packets; partial frame stalled / trickling below the frame read rate / three fast-enough frames in a row / a fast-enough frame under a read rate without time limit; half a CONNECT or a trickling CONNECT against the connect timeout; idle client with keep-alive (its own or a Server Keep Alive it did not ask for), with a full send window, after a stream that owed payload at a tick; live peer while a handler is busy; dead peer after the publish service was not ready for a while), "
    "v3 and v5, repeated at staggered phases of the 1 s timer wheel. Dead peers end inside [T-0.6 s, T+2.2 s] with a keep-alive timeout (v5 DISCONNECT 0x8D), live peers never, slow frames with a read timeout, fast-enough frames are handled, stalled CONNECT dropped, clients write PINGREQ every k+1.2 s.",
    "Wall-clock check: cases whose driver woke more than 0.3 s late are inconclusive; more than 5 % inconclusive gives exit 2, never a violation.",
    "DESIGN.md section 3 C20"),
